@@ -199,7 +199,8 @@ Definition s2b (s : string) : list N := map N_of_ascii (list_ascii_of_string s).
 
 Inductive validator := V_utf8 | V_sb (k : sbkind).
 (* validators_set::validators_set() *)
-Definition enc_table : list (list N * validator) :=
+(* (Eval vm_compute: the extracted table is made of literal byte lists) *)
+Definition enc_table : list (list N * validator) := Eval vm_compute in
   [ (s2b "latin1", V_sb SB_iso);
     (s2b "iso88591", V_sb SB_iso); (s2b "iso88592", V_sb SB_iso); (s2b "iso88594", V_sb SB_iso);
     (s2b "iso88595", V_sb SB_iso); (s2b "iso88599", V_sb SB_iso); (s2b "iso885910", V_sb SB_iso);
@@ -223,7 +224,8 @@ Definition lookup (name : list N) : option validator :=
   | Some (_, v) => Some v
   | None => None
   end.
-Definition is_utf8 (name : list N) : bool := enc_equiv name (s2b "utf8").
+Definition utf8_name : list N := Eval vm_compute in s2b "utf8".
+Definition is_utf8 (name : list N) : bool := enc_equiv name utf8_name.
 
 (* a tester applied to [begin,end) with a count: (result, count afterwards); None = out of fuel (never) *)
 Definition tester (v : validator) (l : list N) (count : N) : option (bool * N) :=
